@@ -629,7 +629,7 @@ Example same_counter_stop_refuted :
   p (axs st2) = p (axs st1) + 125000 /\ v (axs st2) = 500000 /\ In 1 (map mover_id (movers st2)).
 Proof.
   cbn zeta. split; [apply all_okb_ok; vm_compute; reflexivity|].
-  vm_compute. repeat split. right. now left.
+  vm_compute. repeat split. now left.
 Qed.
 
 (* KNOWN FINDING track_rate_stale: a second program_track command while the first one's thread is
